@@ -8,6 +8,8 @@
      I low term                                                     reinitialize
      P                                                              print the current state
      T t0 tMax h                                                    select_t1 on the float instance
+     D fin zero limited errLeAcc cand h min|none max|none           adjustStepSize model on the float instance (C21)
+     K errCtl min|none max|none h ; conv big projOk fin zero errLeAcc cand limited ; ...   attempt loop (C21)
    CPodes model: C (cfg) / Z (state) / Q (oracle answer) / X report sched (stepTo) / J low (reinit) / Y (print) *)
 open C19m
 (*FOPS*)
@@ -87,6 +89,20 @@ let () =
      | ["P"] -> Printf.printf "STATE"; print_state !st0; print_newline ()
      | ["T"; t0; tmax; h] ->
          let (t1, lim) = select_t1 fops (fl t0) (fl tmax) (fl h) in Printf.printf "T1 %h %d\n" t1 (b2i lim)
+     | ["D"; fin; zero; lim; ela; cand; h; mn; mx] ->
+         let o s = if s = "none" then None else Some (fl s) in
+         let (nh, ok) = adjust fops (bl fin) (bl zero) (bl lim) (bl ela) (fl cand) (fl h) (o mn) (o mx) in
+         Printf.printf "ADJ %h %d\n" nh (b2i ok)
+     | "K" :: ec :: mn :: mx :: h :: rest ->
+         let o s = if s = "none" then None else Some (fl s) in
+         let rec parse l = match l with
+           | ";" :: c :: b :: p :: f :: z :: e :: cd :: lm :: tl ->
+               { a_conv = bl c; a_big = bl b; a_projOk = bl p; a_fin = bl f; a_zero = bl z; a_errLeAcc = bl e;
+                 a_cand = fl cd; a_limited = bl lm } :: parse tl
+           | _ -> [] in
+         (match attempts fops (bl ec) (o mn) (o mx) (fl h) (parse rest) with
+          | None -> print_endline "ATT none"
+          | Some ((pj, hu), hn) -> Printf.printf "ATT %d %h %h\n" (b2i pj) hu hn)
      | [] -> ()
      | cmd -> if not (cpodes_cmd cmd) then Printf.printf "BADCMD %s\n" line)
   done with End_of_file -> ()
